@@ -147,19 +147,21 @@ theorem iter_stable (f : AEnv → Option AEnv) (n : Nat) (E E' : AEnv) (hf : f E
 
 /-! ### soundness -/
 
-theorem sound (T : List Field) (h0 : Heap) : ∀ (s : Stmt) (σ σ' : State), Exec s σ σ' →
+theorem sound (T : List Field) (h0 : Heap) (body : Stmt) (nb : Nat)
+    (hbody : (check T body (List.replicate nb .shared)).isSome = true) :
+    ∀ (s : Stmt) (σ σ' : State), Exec body s σ σ' →
     ∀ (e e' : AEnv) (D S : Addr → Prop), check T s e = some e' → Inv T h0 e D S σ →
-      ∃ D' S', Inv T h0 e' D' S' σ' := by
+      ∃ D' S', (∀ a, D a → D' a) ∧ (∀ a, S a → S' a) ∧ Inv T h0 e' D' S' σ' := by
   intro s σ σ' hex
   induction hex with
   | skip σ =>
     intro e e' D S hc hi
-    simp [check] at hc; subst hc; exact ⟨D, S, hi⟩
+    simp [check] at hc; subst hc; exact ⟨D, S, fun _ h => h, fun _ h => h, hi⟩
   | copy dst src σ h' v hcp =>
     intro e e' D S hc hi
     simp [check] at hc; subst hc
     let N : Addr → Prop := fun a => σ.heap a = none ∧ h' a ≠ none
-    refine ⟨fun a => D a ∨ N a, S, ?_⟩
+    refine ⟨fun a => D a ∨ N a, S, fun _ h => Or.inl h, fun _ h => h, ?_⟩
     have hbase : Inv T h0 e (fun a => D a ∨ N a) S { σ with heap := h' } := by
       constructor
       · rintro a (ha | ⟨ha, _⟩)
@@ -202,7 +204,7 @@ theorem sound (T : List Field) (h0 : Heap) : ∀ (s : Stmt) (σ σ' : State), Ex
       cases h : h0 a with
       | none => rfl
       | some o => rw [hi.old a o h] at ha; cases ha
-    refine ⟨fun b => D b ∨ b = a, S, ?_⟩
+    refine ⟨fun b => D b ∨ b = a, S, fun _ h => Or.inl h, fun _ h => h, ?_⟩
     have hbase : Inv T h0 e (fun b => D b ∨ b = a) S
         { σ with heap := updH σ.heap a (some (fun _ => .prim)) } := by
       constructor
@@ -251,7 +253,7 @@ theorem sound (T : List Field) (h0 : Heap) : ∀ (s : Stmt) (σ σ' : State), Ex
       cases h : h0 a with
       | none => rfl
       | some o => rw [hi.old a o h] at ha; cases ha
-    refine ⟨D, fun b => S b ∨ b = a, ?_⟩
+    refine ⟨D, fun b => S b ∨ b = a, fun _ h => h, fun _ h => Or.inl h, ?_⟩
     have hbase : Inv T h0 e D (fun b => S b ∨ b = a)
         { σ with heap := updH σ.heap a (some (fun _ => .prim)) } := by
       constructor
@@ -294,7 +296,7 @@ theorem sound (T : List Field) (h0 : Heap) : ∀ (s : Stmt) (σ σ' : State), Ex
   | load dst src f σ =>
     intro e e' D S hc hi
     simp only [check, Option.some.injEq] at hc; subst hc
-    refine ⟨D, S, hi.assign dst _ _ ?_ ?_ ?_⟩
+    refine ⟨D, S, fun _ h => h, fun _ h => h, hi.assign dst _ _ ?_ ?_ ?_⟩
     · intro ht a hv
       cases hT : tainted T f with
       | true => simp [hT] at ht
@@ -324,7 +326,7 @@ theorem sound (T : List Field) (h0 : Heap) : ∀ (s : Stmt) (σ σ' : State), Ex
       cases hsrc : tagOf e src <;> cases hT : tainted T f <;> simp [hsrc, hT, Tag.deep] at ht
   | store obj f src σ =>
     intro e e' D S hc hi
-    refine ⟨D, S, ?_⟩
+    refine ⟨D, S, fun _ h => h, fun _ h => h, ?_⟩
     have he : e = e' := by
       simp only [check] at hc
       cases ht : tagOf e obj <;> simp [ht] at hc
@@ -429,16 +431,38 @@ theorem sound (T : List Field) (h0 : Heap) : ∀ (s : Stmt) (σ σ' : State), Ex
   | mov dst src σ =>
     intro e e' D S hc hi
     simp only [check, Option.some.injEq] at hc; subst hc
-    exact ⟨D, S, hi.assign dst _ _ (fun ht a hv => hi.fresh src a ht hv) (fun ht a hv => hi.shallow src a ht hv)
+    exact ⟨D, S, fun _ h => h, fun _ h => h, hi.assign dst _ _ (fun ht a hv => hi.fresh src a ht hv) (fun ht a hv => hi.shallow src a ht hv)
       (fun ht a => hi.prim src a ht)⟩
   | havoc dst σ =>
     intro e e' D S hc hi
     simp only [check, Option.some.injEq] at hc; subst hc
-    exact ⟨D, S, hi.assign dst _ _ (fun ht => by cases ht) (fun ht => by cases ht) (fun _ a hv => by cases hv)⟩
+    exact ⟨D, S, fun _ h => h, fun _ h => h,
+      hi.assign dst _ _ (fun ht => by cases ht) (fun ht => by cases ht) (fun _ a hv => by cases hv)⟩
   | ext dst σ v =>
     intro e e' D S hc hi
     simp only [check, Option.some.injEq] at hc; subst hc
-    exact ⟨D, S, hi.assign dst _ _ (fun ht => by cases ht) (fun ht => by cases ht) (fun ht => by cases ht)⟩
+    exact ⟨D, S, fun _ h => h, fun _ h => h,
+      hi.assign dst _ _ (fun ht => by cases ht) (fun ht => by cases ht) (fun ht => by cases ht)⟩
+  | call dst σ env' σ₁ v _ ih =>
+    intro e e' D S hc hi
+    simp only [check, Option.some.injEq] at hc; subst hc
+    cases hb : check T body (List.replicate nb .shared) with
+    | none => simp [hb] at hbody
+    | some eb =>
+      have hin : Inv T h0 (List.replicate nb .shared) D S { σ with env := env' } := by
+        refine { hi with fresh := ?_, shallow := ?_, prim := ?_ } <;>
+        · intro x a ht
+          exfalso
+          rw [tagOf_eq] at ht
+          by_cases hx : x < nb <;> simp [hx] at ht
+      obtain ⟨D₁, S₁, hD₁, hS₁, hi₁⟩ := ih _ eb D S hb hin
+      have hback : Inv T h0 e D₁ S₁ { env := σ.env, heap := σ₁.heap, log := σ₁.log } := by
+        refine { hi₁ with fresh := ?_, shallow := ?_, prim := ?_ }
+        · intro x a ht hx; exact hD₁ a (hi.fresh x a ht hx)
+        · intro x a ht hx; exact hS₁ a (hi.shallow x a ht hx)
+        · intro x a ht; exact hi.prim x a ht
+      exact ⟨D₁, S₁, hD₁, hS₁,
+        hback.assign dst .shared v (fun ht => by cases ht) (fun ht => by cases ht) (fun ht => by cases ht)⟩
   | seq a b σ σ₁ σ₂ _ _ ih₁ ih₂ =>
     intro e e' D S hc hi
     simp only [check] at hc
@@ -446,8 +470,9 @@ theorem sound (T : List Field) (h0 : Heap) : ∀ (s : Stmt) (σ σ' : State), Ex
     | none => simp [ha] at hc
     | some e₁ =>
       simp only [ha, Option.bind_some] at hc
-      obtain ⟨D₁, S₁, hi₁⟩ := ih₁ e e₁ D S ha hi
-      exact ih₂ e₁ e' D₁ S₁ hc hi₁
+      obtain ⟨D₁, S₁, hD₁, hS₁, hi₁⟩ := ih₁ e e₁ D S ha hi
+      obtain ⟨D₂, S₂, hD₂, hS₂, hi₂⟩ := ih₂ e₁ e' D₁ S₁ hc hi₁
+      exact ⟨D₂, S₂, fun a h => hD₂ a (hD₁ a h), fun a h => hS₂ a (hS₁ a h), hi₂⟩
   | choiceL a b σ σ' _ ih =>
     intro e e' D S hc hi
     simp only [check] at hc
@@ -458,8 +483,8 @@ theorem sound (T : List Field) (h0 : Heap) : ∀ (s : Stmt) (σ σ' : State), Ex
       | none => simp [ha, hb] at hc
       | some eb =>
         simp only [ha, hb, Option.some.injEq] at hc; subst hc
-        obtain ⟨D', S', hi'⟩ := ih e ea D S ha hi
-        exact ⟨D', S', hi'.weaken (joinEnv_left ea eb)⟩
+        obtain ⟨D', S', hD', hS', hi'⟩ := ih e ea D S ha hi
+        exact ⟨D', S', hD', hS', hi'.weaken (joinEnv_left ea eb)⟩
   | choiceR a b σ σ' _ ih =>
     intro e e' D S hc hi
     simp only [check] at hc
@@ -470,27 +495,30 @@ theorem sound (T : List Field) (h0 : Heap) : ∀ (s : Stmt) (σ σ' : State), Ex
       | none => simp [ha, hb] at hc
       | some eb =>
         simp only [ha, hb, Option.some.injEq] at hc; subst hc
-        obtain ⟨D', S', hi'⟩ := ih e eb D S hb hi
-        exact ⟨D', S', hi'.weaken (joinEnv_right ea eb)⟩
+        obtain ⟨D', S', hD', hS', hi'⟩ := ih e eb D S hb hi
+        exact ⟨D', S', hD', hS', hi'.weaken (joinEnv_right ea eb)⟩
   | loopNil a σ =>
     intro e e' D S hc hi
     simp only [check] at hc
-    exact ⟨D, S, hi.weaken (iter_spec _ _ _ _ hc).1⟩
+    exact ⟨D, S, fun _ h => h, fun _ h => h, hi.weaken (iter_spec _ _ _ _ hc).1⟩
   | loopCons a σ σ₁ σ₂ _ _ ih₁ ih₂ =>
     intro e e' D S hc hi
     simp only [check] at hc
     obtain ⟨hle, E', hf, hj⟩ := iter_spec _ _ _ _ hc
-    obtain ⟨D₁, S₁, hi₁⟩ := ih₁ e' E' D S hf (hi.weaken hle)
+    obtain ⟨D₁, S₁, hD₁, hS₁, hi₁⟩ := ih₁ e' E' D S hf (hi.weaken hle)
     have hle' : EnvLe E' e' := by
       have := joinEnv_right e' E'
       rw [hj] at this; exact this
     have hst : check T (.loop a) e' = some e' := by
       simp only [check]
       exact iter_stable _ _ _ _ hf hj
-    exact ih₂ e' e' D₁ S₁ hst (hi₁.weaken hle')
+    obtain ⟨D₂, S₂, hD₂, hS₂, hi₂⟩ := ih₂ e' e' D₁ S₁ hst (hi₁.weaken hle')
+    exact ⟨D₂, S₂, fun a h => hD₂ a (hD₁ a h), fun a h => hS₂ a (hS₁ a h), hi₂⟩
 
 /-- the invariant also holds at every state passed on the way (in particular where a `raise` ends the call) -/
-theorem reach_sound (T : List Field) (h0 : Heap) : ∀ (s : Stmt) (σ σ' : State), Reach s σ σ' →
+theorem reach_sound (T : List Field) (h0 : Heap) (body : Stmt) (nb : Nat)
+    (hbody : (check T body (List.replicate nb .shared)).isSome = true) :
+    ∀ (s : Stmt) (σ σ' : State), Reach body s σ σ' →
     ∀ (e e' : AEnv) (D S : Addr → Prop), check T s e = some e' → Inv T h0 e D S σ →
       ∃ e'' D' S', Inv T h0 e'' D' S' σ' := by
   intro s σ σ' hr
@@ -498,7 +526,7 @@ theorem reach_sound (T : List Field) (h0 : Heap) : ∀ (s : Stmt) (σ σ' : Stat
   | start s σ => intro e e' D S _ hi; exact ⟨e, D, S, hi⟩
   | done s σ σ' h =>
     intro e e' D S hc hi
-    obtain ⟨D', S', hi'⟩ := sound T h0 s σ σ' h e e' D S hc hi
+    obtain ⟨D', S', _, _, hi'⟩ := sound T h0 body nb hbody s σ σ' h e e' D S hc hi
     exact ⟨e', D', S', hi'⟩
   | seqL a b σ σ' _ ih =>
     intro e e' D S hc hi
@@ -513,7 +541,7 @@ theorem reach_sound (T : List Field) (h0 : Heap) : ∀ (s : Stmt) (σ σ' : Stat
     | none => simp [ha] at hc
     | some e₁ =>
       simp only [ha, Option.bind_some] at hc
-      obtain ⟨D₁, S₁, hi₁⟩ := sound T h0 a σ σ₁ h₁ e e₁ D S ha hi
+      obtain ⟨D₁, S₁, _, _, hi₁⟩ := sound T h0 body nb hbody a σ σ₁ h₁ e e₁ D S ha hi
       exact ih e₁ e' D₁ S₁ hc hi₁
   | choiceL a b σ σ' _ ih =>
     intro e e' D S hc hi
@@ -529,10 +557,22 @@ theorem reach_sound (T : List Field) (h0 : Heap) : ∀ (s : Stmt) (σ σ' : Stat
     | some eb => exact ih e eb D S hb hi
   | loop a σ σ₁ σ' h₁ _ ih =>
     intro e e' D S hc hi
-    obtain ⟨D₁, S₁, hi₁⟩ := sound T h0 _ σ σ₁ h₁ e e' D S hc hi
+    obtain ⟨D₁, S₁, _, _, hi₁⟩ := sound T h0 body nb hbody _ σ σ₁ h₁ e e' D S hc hi
     simp only [check] at hc
     obtain ⟨_, E', hf, _⟩ := iter_spec _ _ _ _ hc
     exact ih e' E' D₁ S₁ hf hi₁
+  | callIn dst σ env' σ' _ ih =>
+    intro e e' D S _ hi
+    cases hb : check T body (List.replicate nb .shared) with
+    | none => simp [hb] at hbody
+    | some eb =>
+      have hin : Inv T h0 (List.replicate nb .shared) D S { σ with env := env' } := by
+        refine { hi with fresh := ?_, shallow := ?_, prim := ?_ } <;>
+        · intro x a ht
+          exfalso
+          rw [tagOf_eq] at ht
+          by_cases hx : x < nb <;> simp [hx] at ht
+      exact ih _ eb D S hb hin
 
 /-- the invariant holds initially: nothing has been allocated by the call yet and every variable is `shared` -/
 theorem inv_init (T : List Field) (nvars : Nat) (σ : State) (hlog : σ.log = []) :
@@ -548,45 +588,61 @@ theorem inv_init (T : List Field) (nvars : Nat) (σ : State) (hlog : σ.log = []
   · intro x a ht
     exfalso
     rw [tagOf_eq] at ht
-    by_cases hx : x < nvars
-    · simp [hx] at ht
-    · simp [hx] at ht
+    by_cases hx : x < nvars <;> simp [hx] at ht
   · intro x a ht
     exfalso
     rw [tagOf_eq] at ht
-    by_cases hx : x < nvars
-    · simp [hx] at ht
-    · simp [hx] at ht
+    by_cases hx : x < nvars <;> simp [hx] at ht
   · intro x a ht
     exfalso
     rw [tagOf_eq] at ht
-    by_cases hx : x < nvars
-    · simp [hx] at ht
-    · simp [hx] at ht
+    by_cases hx : x < nvars <;> simp [hx] at ht
+
+/-- **frame theorem with a procedure**: a well-formed program whose `call` statements run a well-formed
+    (possibly recursive) procedure leaves every object that existed before exactly as it was, at every state
+    passed on the way — inside nested and recursive calls too — and every `store` goes to an object allocated
+    since the start -/
+theorem wellFormedWith_frame_always (T : List Field) (nvars : Nat) (body p : Stmt)
+    (hwf : wellFormedWith T nvars body p = true)
+    (σ σ' : State) (hlog : σ.log = []) (hr : Reach body p σ σ') :
+    (∀ a o, σ.heap a = some o → σ'.heap a = some o) ∧ (∀ a ∈ σ'.log, σ.heap a = none) := by
+  unfold wellFormedWith wellFormed at hwf
+  rw [Bool.and_eq_true] at hwf
+  cases hc : check T p (List.replicate nvars .shared) with
+  | none => simp [hc] at hwf
+  | some e' =>
+    obtain ⟨e'', D', S', hi⟩ := reach_sound T σ.heap body nvars hwf.2 p σ σ' hr _ e' _ _ hc (inv_init T nvars σ hlog)
+    exact ⟨hi.old, hi.log⟩
+
+/-- a program without `call` statements: any procedure body will do -/
+theorem wellFormed_isSome_skip (T : List Field) (n : Nat) :
+    (check T .skip (List.replicate n .shared)).isSome = true := rfl
 
 /-- **frame theorem**: a well-formed program leaves every object that existed before the call exactly as it
     was and every `store` it performs goes to an object allocated during the call -/
 theorem wellFormed_frame (T : List Field) (nvars : Nat) (p : Stmt) (hwf : wellFormed T nvars p = true)
-    (σ σ' : State) (hlog : σ.log = []) (hex : Exec p σ σ') :
+    (σ σ' : State) (hlog : σ.log = []) (hex : Exec .skip p σ σ') :
     (∀ a o, σ.heap a = some o → σ'.heap a = some o) ∧ (∀ a ∈ σ'.log, σ.heap a = none) := by
   unfold wellFormed at hwf
   cases hc : check T p (List.replicate nvars .shared) with
   | none => simp [hc] at hwf
   | some e' =>
-    obtain ⟨D', S', hi⟩ := sound T σ.heap p σ σ' hex _ e' _ _ hc (inv_init T nvars σ hlog)
+    obtain ⟨D', S', _, _, hi⟩ := sound T σ.heap .skip nvars (wellFormed_isSome_skip T nvars) p σ σ' hex _ e' _ _ hc
+      (inv_init T nvars σ hlog)
     exact ⟨hi.old, hi.log⟩
 
 /-- **frame theorem, every intermediate state**: also at every point passed during the call (for instance
     where an exception ends it) every pre-existing object is as it was and every store so far went to an
     object allocated during the call -/
 theorem wellFormed_frame_always (T : List Field) (nvars : Nat) (p : Stmt) (hwf : wellFormed T nvars p = true)
-    (σ σ' : State) (hlog : σ.log = []) (hr : Reach p σ σ') :
+    (σ σ' : State) (hlog : σ.log = []) (hr : Reach .skip p σ σ') :
     (∀ a o, σ.heap a = some o → σ'.heap a = some o) ∧ (∀ a ∈ σ'.log, σ.heap a = none) := by
   unfold wellFormed at hwf
   cases hc : check T p (List.replicate nvars .shared) with
   | none => simp [hc] at hwf
   | some e' =>
-    obtain ⟨e'', D', S', hi⟩ := reach_sound T σ.heap p σ σ' hr _ e' _ _ hc (inv_init T nvars σ hlog)
+    obtain ⟨e'', D', S', hi⟩ := reach_sound T σ.heap .skip nvars (wellFormed_isSome_skip T nvars) p σ σ' hr _ e' _ _ hc
+      (inv_init T nvars σ hlog)
     exact ⟨hi.old, hi.log⟩
 
 /-- a variable the checker tags `fresh` (or `prim`) at the end holds a primitive or an object allocated during
@@ -594,7 +650,7 @@ theorem wellFormed_frame_always (T : List Field) (nvars : Nat) (p : Stmt) (hwf :
     (so nothing reachable from it through untainted fields existed before the call) -/
 theorem wellFormed_result_fresh (T : List Field) (nvars : Nat) (p : Stmt) (x : Var)
     (ht : (resultTag T nvars p x).map Tag.deep = some true)
-    (σ σ' : State) (hlog : σ.log = []) (hex : Exec p σ σ') :
+    (σ σ' : State) (hlog : σ.log = []) (hex : Exec .skip p σ σ') :
     ∃ D : Addr → Prop, (∀ a, D a → σ.heap a = none) ∧ (∀ a, σ'.env x = .ref a → D a) ∧
       (∀ a o f b, D a → σ'.heap a = some o → tainted T f = false → o f = .ref b → D b) := by
   unfold resultTag at ht
@@ -602,7 +658,8 @@ theorem wellFormed_result_fresh (T : List Field) (nvars : Nat) (p : Stmt) (x : V
   | none => simp [hc] at ht
   | some e' =>
     simp [hc] at ht
-    obtain ⟨D', S', hi⟩ := sound T σ.heap p σ σ' hex _ e' _ _ hc (inv_init T nvars σ hlog)
+    obtain ⟨D', S', _, _, hi⟩ := sound T σ.heap .skip nvars (wellFormed_isSome_skip T nvars) p σ σ' hex _ e' _ _ hc
+      (inv_init T nvars σ hlog)
     refine ⟨D', hi.dNew, fun a ha => ?_, hi.closed⟩
     cases hx : tagOf e' x with
     | prim => exact absurd ha (hi.prim x a hx)
